@@ -341,6 +341,8 @@ def guards_of(pd, cfg):
                 ex = [p["exp"] for p in m["params"]]
                 if len(set(ex)) != len(ex):
                     g.append("mt-field-collision")
+        if cfg.get("static_param_guards"):       # decided on the source for these inputs (gen_class)
+            g = [x for x in g if x not in ("tf-param-local", "mt-param-local", "tf-result-local")]
         out[i["name"]] = sorted(set(g) - off)
     return out
 
@@ -542,6 +544,26 @@ def template_identifiers():
     return sorted(x for x in ids if x[0].isalpha() and x[0].islower())
 
 
+def gen_name_py(T):
+    """Mirror of Gen/Skeleton.v gen_name (the specification of varName for an unnamed parameter of named type T)."""
+    if T == "error":
+        n = "err"
+    else:
+        d = T[0].lower() + T[1:]
+        n = d + "MoqParam" if d == T else d
+    return n + "Param" if n in RESERVED_PINNED else n
+
+
+def gen_class(iface_name, template):
+    """Known-finding class of a gennames interface, decided on the SOURCE (type name -> specified generated name), not on
+    what the data model of the tree under test reports: a tree that starts generating `mock` for a type Mock must fail
+    the oracle, not be filed under the parameter-named-like-a-template-local finding."""
+    n = gen_name_py(iface_name[1:])
+    if template == "testify":
+        return "tf-param-local" if n in TF_TABOO or re.fullmatch(r"r\d+", n) else None
+    return "mt-param-local" if n in MT_TABOO else None
+
+
 def gennames_module(reserved):
     """Unnamed and `_` parameters whose TYPE NAME decapitalises to an identifier of the templates or to an entry of
     varName's reserved list (from the code of this run, united with the pinned list), directly and behind pointer /
@@ -585,17 +607,33 @@ def make_configs(rng, modules, thorough):
     cfgs = []
     for k, m in enumerate(modules):
         combos = [(t, f, p) for t in TEMPLATES for f in FORMATTERS for p in PLACEMENTS]
-        if m.get("gennames") and not thorough:        # both templates x all placements, one non-repairing formatter
-            combos = [(t, "gofmt" if p != "separate" else "noop", p) for t in TEMPLATES for p in PLACEMENTS]
+        if m.get("gennames"):
+            # one output file per chunk of interfaces (the Coq evaluation is quadratic in the size of a file); every type
+            # name meets both templates; placements, formatters and option sets rotate over the chunks (thorough: all
+            # placements)
+            names = m["static_names"]
+            chunks = [names[q:q + 12] for q in range(0, len(names), 12)]
+            off = rng.randrange(3)
+            for q, chunk in enumerate(chunks):
+                for ti, t in enumerate(TEMPLATES):
+                    vs = ([{"unroll-variadic": False}, {"unroll-variadic": True}] if t == "testify"
+                          else [{}, {"skip-ensure": True, "stub-impl": True, "with-resets": True}])
+                    keep = [n for n in chunk if not gen_class(n, t)]
+                    sx = {}
+                    for n in chunk:
+                        if gen_class(n, t):
+                            sx[gen_class(n, t)] = sx.get(gen_class(n, t), 0) + 1
+                    for p in (PLACEMENTS if thorough else [PLACEMENTS[(q + ti + off) % 3]]):
+                        cfgs.append({"module": m, "files": m.get("files"), "template": t, "formatter": ["gofmt", "noop"][(q + ti) % 2],
+                                     "static_param_guards": True, "static_excluded": sx,
+                                     "placement": p, "opts": dict(vs[(q + off) % 2]), "filename": "mocks_test.go" if q % 2 else "mocks.go",
+                                     "src_name": m["src"]["name"], "src_path": m["src"]["path"], "pkgnames": pkgnames_of(m),
+                                     "stream": "main", "only_names": keep})
+            continue
         for j, (t, f, p) in enumerate(combos):
             optlist = TESTIFY_OPTS if t == "testify" else MATRYER_OPTS
             variants = [optlist[(k * 7 + j) % len(optlist)]]
-            if m.get("gennames"):
-                variants = ([{"unroll-variadic": False}, {"unroll-variadic": True}] if t == "testify"
-                            else [{}, {"skip-ensure": True, "stub-impl": True, "with-resets": True}])
-                if not thorough:
-                    variants = [variants[j % 2]] if p != "inpkg" else variants
-            elif m.get("corpus"):                       # the corpus sees every option set (quick: three per combination)
+            if m.get("corpus"):                       # the corpus sees every option set (quick: three per combination)
                 variants = optlist if thorough else [optlist[(j + d) % len(optlist)] for d in range(3)]
             for o in variants:
                 cfgs.append({"module": m, "files": m.get("files"), "template": t, "formatter": f, "placement": p, "opts": dict(o),
@@ -604,7 +642,7 @@ def make_configs(rng, modules, thorough):
     for n, c in enumerate(cfgs):
         c["id"] = n
         ifaces = c["module"]["ifaces"] + (STATIC_IFACES if not c["module"].get("corpus") else [])
-        c["candidates"], c["outside"] = list(c["module"].get("static_names", [])), {}
+        c["candidates"], c["outside"] = list(c.get("only_names") or c["module"].get("static_names", [])), {}
         for i in ifaces:
             why = outside_guarantee(i, c["template"], c["placement"], c["opts"])
             if why:
@@ -763,8 +801,15 @@ def shrink_interfaces(ctx, cfg, res):
 
 
 def check(ctx, only=None):
+    import time as _t
+    phases, _t0 = {}, _t.time()
+
+    def mark(name):
+        nonlocal _t0
+        phases[name] = round(_t.time() - _t0, 1); _t0 = _t.time()
     known = load_known("C01")
     gate = proof_gate(ctx)
+    mark("proof_gate")
     if not ctx.build_tree(drivers=["goscope"]):
         ctx.write_evidence(gate, 0, 0, "build failed", [])
         return
@@ -786,7 +831,9 @@ def check(ctx, only=None):
                 if c["placement"] == "inpkg" and k % 4 == 0 and c.get("files") is None:
                     c["gomod_line"] = ['module "%s"' % gen_pkgs.MOD, "module %s // comment" % gen_pkgs.MOD, "module (\n\t%s\n)" % gen_pkgs.MOD][k % 3]
         cfgs += witness_configs(len(cfgs))
+    mark("build_and_generate")
     results = pmap(lambda c: run_config(ctx, c), cfgs)
+    mark("mockery_and_typecheck")
     main = [(c, r) for c, r in zip(cfgs, results) if c["stream"] == "main"]
     wit = [(c, r) for c, r in zip(cfgs, results) if c["stream"] == "witness"]
 
@@ -807,7 +854,9 @@ def check(ctx, only=None):
     # ---------------- translator + correspondence inside Coq
     done = [(c, r) for c, r in main if r["stage"] == "done" and not r.get("errors") and r.get("skel") and r.get("probe")]
     terms = [case_term(c, r) for c, r in done]
+    mark("oracle_classification")
     bad, errs = coq_mismatches(ctx, MODS, terms, shard=6) if terms else ([], [])
+    mark("coq_cases")
     skel_errors = [(c, r) for c, r in main if r["stage"] == "done" and not r.get("skel")]
     # generated names: template/var.go's varName against the model gen_name (Gen/Skeleton.v), and its reserved list
     # (parsed from the source text of this tree) against reserved_names
@@ -918,7 +967,7 @@ def check(ctx, only=None):
             hist["option"][key] = hist["option"].get(key, 0) + 1
         if c["placement"] == "inpkg":
             hist["filename"][c["filename"]] = hist["filename"].get(c["filename"], 0) + 1
-        for k, v in r["excluded"].items():
+        for k, v in list(r["excluded"].items()) + list(c.get("static_excluded", {}).items()):
             hist["excluded_by_guard"][k] = hist["excluded_by_guard"].get(k, 0) + v
         for k, v in c["outside"].items():
             hist["outside_guarantee"][k] = hist["outside_guarantee"].get(k, 0) + v
@@ -951,7 +1000,7 @@ def check(ctx, only=None):
                        samples,
                        extra={"histogram": hist, "mocked_interfaces": n_ifaces, "mocked_methods": n_methods, "oracle_failures": len(oracle_fail),
                               "model_mismatches": len(bad), "translator_lemmas_checked": len(terms), "witnesses": wit_report,
-                              "generated_names": gen_info,
+                              "generated_names": gen_info, "phase_seconds": phases,
                               "switches": {k: envflag(k) for k in ("C01_VARIADIC_MULTI", "C01_C03_LOCALS", "C01_GOMOD_SPELLINGS")}},
                        assumptions=["go.mod is written in the plain spelling `module example.com/m` (other spellings: property C09, switch C01_GOMOD_SPELLINGS=1)",
                                     "template-data is set at the top level of the configuration (per-level inheritance: property C08)"])
